@@ -240,7 +240,7 @@ def transitive_local_imports(mod, seen=None):
     return seen
 
 
-def lean_obligations(modules, log, prop):
+def lean_obligations(modules, log, prop, tier="quick"):
     """build + audit. returns dict(obligations, discharged, broken=[names], build_ok, detail)"""
     res = {"obligations": 0, "discharged": 0, "broken": [], "build_ok": False, "theorems": [], "axioms": {}, "detail": ""}
     names = []
@@ -309,6 +309,15 @@ def lean_obligations(modules, log, prop):
                     res["broken"].append(n + " (axioms: " + ",".join(sorted(set(ax) - ALLOWED_AXIOMS)) + ")")
                 else:
                     res["discharged"] += 1
+    if tier == "thorough" and res["build_ok"]:
+        # independent re-check of the compiled .olean files by the toolchain's external checker
+        t0 = time.time()
+        rc, out = sh(["lake", "env", "leanchecker", *modules], cwd=LEAN_DIR)
+        res["leanchecker"] = {"rc": rc, "wall_s": round(time.time() - t0, 1)}
+        log(f"leanchecker {' '.join(modules)}: rc={rc} ({time.time()-t0:.1f}s)")
+        if rc != 0:
+            res["broken"].append("<leanchecker> " + out[-500:])
+            res["discharged"] = 0
     if forbidden_hits:
         res["broken"] += ["forbidden construct: " + h for h in forbidden_hits]
         res["discharged"] = 0
@@ -453,7 +462,7 @@ def main(check: Check, argv):
             lean["broken"] = ["<extract> " + out[-2000:]]
             lean["obligations"] = 1
         else:
-            lean = lean_obligations(check.modules, log, prop)
+            lean = lean_obligations(check.modules, log, prop, args.tier)
         broken = lean["broken"]
         log(f"obligations={lean['obligations']} discharged={lean['discharged']} broken={len(broken)}")
         for b in broken:
@@ -593,6 +602,7 @@ def main(check: Check, argv):
             ],
             "theorems": lean["theorems"],
             "axioms_used": sorted({a for ax in lean["axioms"].values() for a in ax}),
+            "leanchecker": lean.get("leanchecker"),
             "broken_obligations": broken,
             "evaluations": evaluations,
             "distinct_nontrivial": distinct,
